@@ -42,6 +42,11 @@ GRAMMARS = {'imp2': G_IMP2, 'pkg': G_PKG, 'imp': G_IMP, 'plain': G_PLAIN, 'other
 OPTS = {'o0': {}, 'keep': {'keep_all_tokens': True}, 'noph': {'maybe_placeholders': False}, 'basic': {'lexer': 'basic'},
         'start-y': {'start': 'y'}, 'prio-none': {'priority': None}}
 INPUTS = list(util.strings('abc', 3))
+# a cache file of more than 8 KiB (10 KB): one terminal per string over {a,b,c} of length 1..2 (12 terminals), every one of
+# them exercised by the inputs (so that damage to any pattern is observable)
+BIG_WORDS = [w for w in util.strings('abc', 2) if w]
+GRAMMARS['big'] = 'start: (%s)+\n' % ' | '.join('T%03d' % i for i in range(len(BIG_WORDS))) + ''.join('T%03d: "%s"\n' % (i, w) for i, w in enumerate(BIG_WORDS))
+INPUTS_BIG = INPUTS
 
 
 def _edit_c(t):
@@ -122,9 +127,9 @@ def construct(env, g, o, cached):
     return util.timed(lambda: Lark(GRAMMARS[g], **opts), 10)
 
 
-def behaviour(p, start=None):
+def behaviour(p, start=None, inputs=None):
     out = []
-    for w in INPUTS:
+    for w in (inputs or INPUTS):
         r = util.timed(lambda: p.parse(w), 5)
         out.append(obs.canon(r[1], pos=True) if r[0] == 'ok' else (r[0], type(r[1]).__name__, getattr(r[1], 'pos_in_stream', None)))
     r = util.timed(lambda: tuple(sorted(p.parse_interactive('').accepts())), 5)
@@ -147,14 +152,16 @@ class LoadCounter:
         larklark.load_grammar = self.orig
 
 
-def judge(env, g, o, res, case, section):
+def judge(env, g, o, res, case, section, want=None):
     """One cached construction against the uncached build + validity of the file afterwards."""
-    ref = construct(env, g, o, cached=False)
-    res['evals'] += 1
-    if ref[0] != 'ok':
-        res['counters']['uncached build refuses the (grammar, options) pair: not judged'] += 1
-        return True
-    want = behaviour(ref[1])
+    inputs = INPUTS_BIG if g == 'big' else INPUTS
+    if want is None:
+        ref = construct(env, g, o, cached=False)
+        res['evals'] += 1
+        if ref[0] != 'ok':
+            res['counters']['uncached build refuses the (grammar, options) pair: not judged'] += 1
+            return True
+        want = behaviour(ref[1], inputs=inputs)
     with LoadCounter() as lc0:
         r = construct(env, g, o, cached=True)
     res['evals'] += 1
@@ -169,11 +176,11 @@ def judge(env, g, o, res, case, section):
     if r[0] == 'exc':
         bad('constructor-raises', 'constructor returns', repr(r[1])[:300])
         return False
-    got = behaviour(r[1])
+    got = behaviour(r[1], inputs=inputs)
     if got != want:
         i = next(i for i, (a, b) in enumerate(zip(got, want)) if a != b)
-        bad('serves-wrong-parser', {'input': INPUTS[i] if i < len(INPUTS) else 'accepts()', 'observation': want[i]},
-            {'input': INPUTS[i] if i < len(INPUTS) else 'accepts()', 'observation': got[i]})
+        bad('serves-wrong-parser', {'input': inputs[i] if i < len(inputs) else 'accepts()', 'observation': want[i]},
+            {'input': inputs[i] if i < len(inputs) else 'accepts()', 'observation': got[i]})
         return False
     with LoadCounter() as lc:
         r2 = construct(env, g, o, cached=True)
@@ -186,7 +193,7 @@ def judge(env, g, o, res, case, section):
     elif lc.n != 0:
         bad('file-not-replaced-by-a-valid-one', 'the next construction loads from the cache (load_grammar not called)', 'load_grammar called %d times' % lc.n)
         return False
-    if behaviour(r2[1]) != want:
+    if behaviour(r2[1], inputs=inputs) != want:
         bad('serves-wrong-parser-afterwards', 'equal to the uncached build', 'differs')
         return False
     return True
@@ -221,6 +228,9 @@ def run_faults(g, o, Bb64, kind, lo, hi, masks, res, only=None):
     B = base64.b64decode(Bb64)
     env = Env('f_%s_%s_%s_%d' % (g, o, kind, lo))
     try:
+        ref = construct(env, g, o, cached=False)        # the environment is the same for every fault of this item
+        res['evals'] += 1
+        want = behaviour(ref[1], inputs=INPUTS_BIG if g == 'big' else INPUTS) if ref[0] == 'ok' else None
         for k in range(lo, hi):
             for mask in (masks if kind == 'flip' else [None]):
                 if only and (only['offset'], only.get('mask')) != (k, mask):
@@ -238,7 +248,7 @@ def run_faults(g, o, Bb64, kind, lo, hi, masks, res, only=None):
                         'file_len': len(B), 'base_file_b64': Bb64}
                 if sec != 'header':
                     res['nontrivial'] += 1
-                judge(env, g, o, res, case, '%s-%s' % (kind, sec))
+                judge(env, g, o, res, case, '%s-%s' % (kind, sec), want=want)
     finally:
         env.close()
     if len(res['samples']) < 1:
@@ -312,6 +322,14 @@ def plan(tier, seed):
             items.append(('trunc', g, o, b64, lo, min(len(B) + 1, lo + 200), None))
         for lo in range(0, len(B), 100):
             items.append(('flip', g, o, b64, lo, min(len(B), lo + 100), masks))
+    # the large file (> 8 KiB payload): quick = every offset x the lowest bit; thorough = all bits and every truncation
+    B = base_file('big', 'o0')
+    b64 = base64.b64encode(B).decode()
+    for lo in range(0, len(B), 150):
+        items.append(('flip', 'big', 'o0', b64, lo, min(len(B), lo + 150), [0x01] if tier == 'quick' else masks))
+    if tier != 'quick':
+        for lo in range(0, len(B) + 1, 300):
+            items.append(('trunc', 'big', 'o0', b64, lo, min(len(B) + 1, lo + 300), None))
     ev = events(tier)
     depth = 3 if tier == 'quick' else 4
     builds = [e for e in ev if e[0] == 'build']
@@ -336,7 +354,8 @@ def histories(depth, first):
 
 
 def bounds(tier, seed):
-    return {'fault_pairs': FAULT_PAIRS[:2] if tier == 'quick' else FAULT_PAIRS, 'truncation': 'every offset 0..len(file)',
+    return {'fault_pairs': FAULT_PAIRS[:2] if tier == 'quick' else FAULT_PAIRS,
+            'large_file': 'grammar `big` (12 colliding terminals, cache file of 10 KB): every offset x %s' % ('mask 0x01' if tier == 'quick' else 'all 8 bits, and every truncation offset'), 'truncation': 'every offset 0..len(file)',
             'bit_flips': 'every offset x masks %s' % ([0x01, 0x80] if tier == 'quick' else 'all 8 bits'),
             'history_events': [list(e) for e in events(tier)], 'history_depth': 3 if tier == 'quick' else 4,
             'inputs': 'all strings over abc up to length 3 + accepts() of the initial state', 'memory_limit_gib': MEM_GIB}
